@@ -472,18 +472,25 @@ Refusal(L) == "exc" \in DOMAIN L
 C11_Disjoint(L) == L.transferred \cap L.failed = {}
 C11_Partition(L) == L.transferred \cup L.failed = xs.new
 C11_Arrived(L, S) == \A o \in L.transferred : Intact(S, xs.dst, o)
-\* (with a remote index, files listed by a directory object that is present are trusted to be there - by design; after
-\* an external deletion from the destination, which C11 does not quantify over, only directory objects are demanded)
+\* (with a remote index, files the index holds are trusted to be there - by design; external deletions from the
+\* destination, which C11 does not quantify over, make that trust wrong: with an index only directory objects are demanded)
 C11_AbsentReported(L, S) ==
     \A o \in Expand(xs.req, xs.shallow) :
-        (~Present(S, xs.dst, o) /\ (o \in Dirs \/ ~xs.idx \/ xs.dst \notin opened)) => (o \in L.failed \/ o \in xs.missing)
+        (~Present(S, xs.dst, o) /\ (o \in Dirs \/ ~xs.idx)) => (o \in L.failed \/ o \in xs.missing)
 \* a transfer that finds nothing new returns (transferred = {}, failed = {}) at once: a = the TransferBegin record,
 \* L = the xstatus result, T = stores afterwards.  With a remote index, files under a directory object that is present
 \* are trusted to be there (by design), so after external deletions only directories are demanded
 C11_NoopAbsentReported(T, a, L, op) ==
     (~Refusal(L) /\ L.new = {}) =>
         \A o \in Expand(a.req, a.shallow) :
-            (~Present(T, a.dst, o) /\ (o \in Dirs \/ ~a.idx \/ a.dst \notin op)) => o \in L.missing
+            (~Present(T, a.dst, o) /\ (o \in Dirs \/ ~a.idx)) => o \in L.missing
+\* a LOCAL store re-hashes every unprotected object it is asked about: as a source it never hands on a mismatching
+\* unprotected object, as a destination it does not take one for "already present".  S0 = stores before the transfer.
+C11_LocalSrcHonest(S0, L, T) ==
+    (Local(xs.src) /\ \A o \in Oids : S0[xs.src][o] # "bad_p") => \A o \in L.transferred : T[xs.dst][o] # "bad_u"
+C11_LocalDstHonest(L, T) ==
+    (Local(xs.dst) /\ ~xs.idx) =>
+        \A o \in Expand(xs.req, xs.shallow) : (o \notin L.failed /\ o \notin xs.missing /\ o \notin L.transferred) => T[xs.dst][o] # "bad_u"
 C11_PresentUntouched(L) == (L.transferred \cup L.failed) \cap xs.pre = {}
 Inv_C11 ==
     (last.op = "transfer" /\ Idle /\ dev = {}) =>
